@@ -119,10 +119,10 @@ def py_lifecycle(expr, history, shifts=None, sink=False):
 
 class C04(core.Prop):
     ID = 'C04'
-    IMPORTS = 'From FV Require Import Lib.Sym Model.C03 Model.C04.'
+    IMPORTS = 'From FV Require Import Lib.Sym Model.C01 Model.C03 Model.C03Graph Model.C04 Model.C04Seg.'
     CASE_TYPE = 'C04.case'
-    CHECK_FUN = 'C04.check_case'
-    EXTRA_TARGETS = ['Model/C04.vo', 'Lib/Corr.vo']
+    CHECK_FUN = 'C04Seg.check_case_graph'
+    EXTRA_TARGETS = ['Model/C04.vo', 'Model/C04Seg.vo', 'Lib/Corr.vo']
     RULE = (
         'lifecycle histories of 2-5 actions {train, train again (continuing from the last generation), apply latest / an '
         'explicit generation, production performance-tracking evaluation} over random operator expressions (>= 2 stateful '
